@@ -37,8 +37,10 @@ int cmd_time_replay(const Args& a)
         };
         std::vector<long> ta(rems.size()), tf(rems.size()), td(rems.size());
         for (size_t i = 0; i < rems.size(); ++i) ta[i] = call(rems[i], ply, side);
-        for (size_t i = 0; i < rems.size(); ++i) { call(rems[i] / 2 + 1000, ply + 1, 1 - side); tf[i] = call(rems[i], ply, side); }
-        for (size_t i = rems.size(); i-- > 0;) td[i] = call(rems[i], ply, side);
+        const bool orders = chains % 2 == 0;      // (every second chain: the monitor's input stays small)
+        for (size_t i = 0; i < rems.size() && orders; ++i) { call(rems[i] / 2 + 1000, ply + 1, 1 - side); tf[i] = call(rems[i], ply, side); }
+        for (size_t i = rems.size(); orders && i-- > 0;) td[i] = call(rems[i], ply, side);
+        if (!orders) { tf.clear(); td.clear(); }
         auto arr = [](const std::vector<long>& v) { std::string o = "["; for (size_t i = 0; i < v.size(); ++i) o += (i ? "," : "") + std::to_string(v[i]); return o + "]"; };
         fprintf(f[chains % shards], "{\"inc\":%ld,\"mtg\":%ld,\"ply\":%ld,\"side\":%ld,\"rem\":%s,\"t\":%s,\"tf\":%s,\"td\":%s}\n", inc, mtg, ply, side,
                 arr(rems).c_str(), arr(ta).c_str(), arr(tf).c_str(), arr(td).c_str());
